@@ -17,6 +17,7 @@
          AES <key> | DES <key> | TDEA <k1> <k2|-> <k3|-> | Serpent <key>
          ECB|CTS_ECB <cipher> <n> <key> <pad> | CBC|CTS_CBC <cipher> <n> <key> <iv> <pad> | CTR <cipher> <n> <key> <iv|->
          Salsa20 <key> <rounds> | Chacha <key> <rounds>
+         Skein <Nb> <No> <key|-> <prs|-> <nonce|-> l<Yl>,<Yf>,<Ym> | Threefish <key> <tweak>
 -/
 import Driver.Wire
 import Driver.HashD
@@ -156,6 +157,17 @@ def pureOp : List String → Option PureCipher.Op
   | ["dec", b] => do pure (.dec (← parseBytes? b))
   | _ => none
 
+def skeinOp : List String → Option SkeinO.Op
+  | ["call", m, bl] => do pure (.call (← parseBytes? m) (← optNat? bl))
+  | ["update", m] => do pure (.update (← parseBytes? m))
+  | ["initstate"] => some .initstate
+  | _ => none
+
+def threefishOp : List String → Option ThreefishO.Op
+  | ["enc", b] => do pure (.enc (← parseBytes? b))
+  | ["dec", b] => do pure (.dec (← parseBytes? b))
+  | _ => none
+
 def modeOp : List String → Option ModeO.Op
   | ["enc", m] => do pure (.enc (← parseBytes? m))
   | ["dec", m] => do pure (.dec (← parseBytes? m))
@@ -213,6 +225,9 @@ def cipherCfg (cid : String) (n : Nat) (key : List Nat) : Option ModeO.CipherCfg
   else if cid = "DES" then (desCipher key).map .pure
   else if cid = "TDEA" then (tdeaCipher key none none).map .pure
   else if cid = "Serpent" then (serpentCipher key).map .pure
+  else if cid = "Threefish" then
+    -- tools/props/C10.py builds the Threefish under a mode with the tweak bytes(range(16))
+    (match Threefish.init key (List.range 16) with | .ok c => some (.pure ⟨c.K.size / 8, Threefish.enc c, Threefish.dec c⟩) | .error _ => none)
   else (Toy.cipher? cid n key).map .pure
 
 def scheme? (pad : String) : Option Scheme :=
@@ -294,6 +309,20 @@ def hist (kind : String) (cfg : List String) (steps : List (List String)) (probe
   | "Serpent", [key] => do
       let K ← parseBytes? key
       answer (withSib PureCipher.machine) (← serpentCipher K, ← serpentCipher (otherKey K)) (parsePair pureOp pureOp sibPres) steps probe
+  | "Skein", [nb, no, key, prs, non, y] => do
+      let Y ← parseNatList? y
+      match Y with
+      | [yl, yf, ym] =>
+        match Skein.mk (← parseNat? nb) (← parseNat? no) yl yf ym (← parseOptBytes? key) (← parseOptBytes? prs) none none
+                (← parseOptBytes? non) with
+        | .error _ => some ("ERR", "ERR")
+        | .ok c => answer (withSib SkeinO.machine) (c, c) (parsePair skeinOp skeinOp sibPres) steps probe
+      | _ => none
+  | "Threefish", [key, tweak] => do
+      let K ← parseBytes? key; let T ← parseBytes? tweak
+      match Threefish.init K T, Threefish.init (otherKey K) T with
+      | .ok c, .ok d => answer (withSib ThreefishO.machine) (c, d) (parsePair threefishOp threefishOp sibPres) steps probe
+      | _, _ => some ("ERR", "ERR")
   | "Salsa20", [key, rounds] => do
       let K ← parseBytes? key; let r ← parseInt? rounds
       answer (withSib StreamO.machine) (← streamCfg false K r, ← streamCfg false (otherKey K) r) (parsePair streamOp streamOp sibPres) steps probe
